@@ -241,7 +241,7 @@ Definition run_dense (st : nat) (gen : bool) (op : Z) (d : dense) (args : list s
                   (tab m n (fun i j => if (i <? length rows)%nat && (j <? length cols)%nat
                                        then getv x (nth i rows O) (nth j cols O) else getv d i j))))
       | _, _, _ => sx_error 2 end
-  | 28%Z, [] => both (encB (G_isSymmetric sq sym d)) (encSpec encB (Some (negb (m =? 0)%nat && symmetric_b d)))
+  | 28%Z, [] => both (encB (G_isSymmetric sq sym d)) (encSpec encB (guard (negb (isEmpty d)) (symmetric_b d)))   (* the empty matrix: convention, not compared *)
   | _, _ => sx_error 3
   end.
 
